@@ -282,6 +282,11 @@ func cmdEval(prop string, n int, seed uint64, driver, out, corpus string) (*Resu
 		if repeatMismatch != "" {
 			repeatViol[i] = repeatMismatch
 		}
+		if prop == "C01" && i%4 == 0 {
+			if m := staleProbe(c); m != "" && repeatViol[i] == "" {
+				repeatViol[i] = m
+			}
+		}
 	}
 	repeatCalls = false
 	modelLines, err := runDriver(driver, lines, out, "eval")
